@@ -45,6 +45,9 @@ PACKAGES['vfq_m1'] = {'imports': ['vfq_m2'],
                       'types': [gen.stype('pm', [gen.key('km')], implements='aa')]}
 PACKAGES['vfq_m2'] = {'imports': ['vfq_m1'],
                       'types': [gen.stype('pn', [gen.key('kn')], implements='ab')]}
+# two components whose key datatypes have dotted names that differ in letter case only
+PACKAGES['vfq_c1'] = {'types': [gen.stype('pq', [gen.key('kq', 'vf.dtsupport.shout')], implements='aa')]}
+PACKAGES['vfq_c2'] = {'types': [gen.stype('pr', [gen.key('kq', 'vf.dtsupport.Shout')], implements='aa')]}
 _PK = {}
 
 
